@@ -115,12 +115,41 @@ Definition p_rename (o n : str) : cprog :=
              end)
     end).
 
-Inductive cop := CMkdir (p : str) | CRemove (p : str) | CStat (p : str) | CChmod (p : str) | CRename (o n : str).
+(* MkdirAll: findMissingDirs looks at the path and ALL its ancestors in one read transaction (upwards, until the first
+   existing directory; a file on the way is ENOTDIR), then each missing directory is saved in a transaction of its
+   own, the outermost first (an EEXIST from a concurrent creator is ignored: here a Set never fails) *)
+Fixpoint missing_chain (fuel : nat) (s : cstore) (p : str) (acc : list str) : list str + cls :=
+  match fuel with
+  | O => inl acc
+  | Datatypes.S f =>
+    if str_eqb p dot then inl acc
+    else match cget s p with
+         | None => missing_chain f s (path_dir p) (p :: acc)
+         | Some true => inl acc
+         | Some false => inr ENOTDIR
+         end
+  end.
+
+Fixpoint mk_dirs (l : list str) : cprog :=
+  match l with
+  | [] => CDone COk
+  | d :: r => CStep (fun s => (cset s d true, mk_dirs r))
+  end.
+
+Definition p_mkdirall (p : str) : cprog :=
+  CStep (fun s => (s, match missing_chain (Datatypes.S (length p)) s p [] with
+                      | inr c => CDone (CErr c)
+                      | inl l => mk_dirs l
+                      end)).
+
+Inductive cop := CMkdir (p : str) | CRemove (p : str) | CStat (p : str) | CChmod (p : str) | CRename (o n : str)
+               | CMkdirAll (p : str).
 
 Definition prog_of (o : cop) : cprog :=
   match o with
   | CMkdir p => p_mkdir p | CRemove p => p_remove p | CStat p => p_stat p
   | CChmod p => p_chmod p | CRename a b => p_rename a b
+  | CMkdirAll p => p_mkdirall p
   end.
 
 (* ---- sequential execution of one operation (all its steps in a row) ---- *)
